@@ -443,6 +443,7 @@ package html
 // the tab linked to individuals-symbol.html, which was never written).
 //@ func PublishHeader.WriteHTMLTo
 //@   props C19
+//@   requires valid: c != nil && c.options != nil && (c.options.LivingVisibility == LivingVisibilityShow || c.options.LivingVisibility == LivingVisibilityHide || c.options.LivingVisibility == LivingVisibilityPlaceholder)
 //@   oncall PageIndividuals check a-letter-that-has-an-index-page: len(c.indexLetters) > 0 && arg0 == c.indexLetters[0]
 //@ func SurnameLink.WriteHTMLTo
 //@   props C19
